@@ -39,11 +39,12 @@ Ltac famQ name :=
   assert (family_of_name name = f) by (vm_compute; reflexivity).
 
 Lemma gamma_table_ge1 name c s :
-  In name registry_names -> (c * c + s * s == 1)%Q ->
+  In name registry_names -> fixed_angle name = false -> (c * c + s * s == 1)%Q ->
   exists l, coeffsQ name c s = Some l /\ (1 <= kappaQ l)%Q.
 Proof.
-  unfold registry_names. intros H Hcs.
+  unfold registry_names. intros H Hf Hcs.
   repeat (destruct H as [<-|H]); try contradiction.
+  all: try (vm_compute in Hf; discriminate).
   all: match goal with |- context [coeffsQ ?n _ _] => famQ n end.
   all: unfold coeffsQ;
        match goal with F : family_of_name _ = _ |- _ => rewrite F end.
@@ -53,6 +54,9 @@ Proof.
        | _ => eexists; split; [vm_compute; reflexivity|]; vm_compute; discriminate
        end.
 Qed.
+
+Lemma fixed_angle_names : filter fixed_angle registry_names = ["cs"; "csdg"; "csx"; "csxdg"].
+Proof. vm_compute. reflexivity. Qed.
 
 (* the constant entries of the table, exactly *)
 Lemma gamma_table_consts :
